@@ -91,7 +91,7 @@ func (w *World) verifyFunc(sel string, con *Contract) *FuncResult {
 			} else if strings.HasPrefix(g.Init, "const ") {
 				// const <value>: constant array
 				v := ex.safeExpr(c0, strings.TrimPrefix(g.Init, "const "))
-				t = mk(g.Sort, fmt.Sprintf("((as const %s) %s)", g.Sort, v.T.S))
+				t = ex.constArr(g.Sort, v.T)
 			} else {
 				t = ex.safeExpr(c0, g.Init).T
 			}
